@@ -326,17 +326,18 @@ def _formulas(ctx, repo):
     # crossing runs for the *largest* crossing size; otherwise each crossing is measured against its own size
     brs = [s for s in f.node.body if isinstance(s, ast.If) and "POST_PREAMBLE" in ast.unparse(s.test)]
     ctx.require(len(brs) == 1 and brs[0].orelse, "_trials_per_sample_for_crossing: alignment split not found")
-    def _ct(stmts):
-        a = [x for x in stmts if isinstance(x, ast.Assign) and dotted(x.targets[0]) == "crossing_trials"]
-        return str(sym_at(sn, a[0], a[0].value)) if len(a) == 1 else None
-    post, other = _ct(brs[0].body), _ct(brs[0].orelse)
+    nxt = [x for x in f.node.body if f.node.body.index(x) > f.node.body.index(brs[0])]
+    ctx.require(bool(nxt), "_trials_per_sample_for_crossing: nothing follows the alignment split")
+    merged = str(sym_at(sn, nxt[0], ast.Name(id="crossing_trials", ctx=ast.Load())))
     want_post = "[[self.__trials_required_for_crossing(_b1, max([self.crossing_size(_b0) for _b0 in self.crossings])) for _b1 in _b0] for _b0 in self.crossings]"
     want_other = "[[self.__trials_required_for_crossing(_b1, _b0[1]) for _b1 in _b0[0]] for _b0 in zip(self.crossings, [self.crossing_size(_b0) for _b0 in self.crossings])]"
-    ctx.check(ast.unparse(brs[0].test) == "self.alignment == AlignmentMode.POST_PREAMBLE" and post == want_post, R, f, "POST_PREAMBLE requirement",
-              "POST_PREAMBLE: every crossing is measured against the largest crossing size (all crossings start after the unified preamble)",
-              "under POST_PREAMBLE the per-crossing requirement is `%s`, documented: unified preamble + the largest crossing size" % post, brs[0])
-    ctx.check(other == want_other, R, f, "per-crossing requirement", "otherwise each crossing is measured against its own size, paired by position",
-              "the per-crossing requirement is `%s`" % other, brs[0])
+    want_other2 = "[[self.__trials_required_for_crossing(_b1, self.crossing_size(_b0)) for _b1 in _b0] for _b0 in self.crossings]"
+    C_ = "(AlignmentMode.POST_PREAMBLE == self.alignment)"
+    ok = merged in ("ite(%s, %s, %s)" % (C_, want_post, o) for o in (want_other, want_other2))
+    ctx.check(ok, R, f, "requirement per alignment",
+              "POST_PREAMBLE: every crossing is measured against the largest crossing size (all crossings start after the unified preamble); otherwise against its own size",
+              "the per-crossing requirement is `%s`, documented: under POST_PREAMBLE unified preamble + the largest crossing size, otherwise each crossing's own size" % merged, brs[0])
+    ctx.ok(R, f, "alignment split present", brs[0], trivial=True)
 
     # MinimumTrials merge and rounding
     f = ctx.fn("constraint:MinimumTrials.apply")
